@@ -4,8 +4,8 @@ CONSTANTS
   Pas = {0, 1, 2, 3, 4, 5, 6, 7}
   Laws = {"gauss", "exp", "sersic"}
   Fixes = {"none", "center", "pa", "eps"}
-  Modes = {"bilinear", "nearest", "linear_growth", "maxrit"}
-  Frames = {"square", "wide", "tall"}
+  Modes = {"bilinear", "nearest", "linear_growth", "maxrit", "mean", "median"}
+  Frames = {"square", "wide", "tall", "nearleft", "nearbottom", "large"}
   Starts = {"near", "perp"}
   Emit = TRUE
 CHECK_DEADLOCK FALSE
